@@ -55,6 +55,11 @@ pub struct XCase {
     /// and equally long older files)
     #[serde(default)]
     pub prefiles: Vec<(usize, u64, u32)>,
+    /// 'version made by' host of every entry of an independently built archive (None = 3, Unix). 0 = MS-DOS: the
+    /// external attributes are then a DOS attribute word and the recorded mode is the documented mapping of it;
+    /// any other host: no mode is recorded. Extractors that treat names by host get their hostile names here.
+    #[serde(default)]
+    pub host: Option<u8>,
 }
 
 pub struct Extract;
@@ -299,7 +304,9 @@ impl Scenario for Extract {
                 }
             }
         }
-        let case = XCase { entries, by_writer, seekable, policy: gen_policy_short(&mut r), fault, precreate, target_form, prefiles };
+        let mut rh = Rng::derive(s, "host");
+        let host = if by_writer { None } else { match rh.below(8) { 0 | 1 => Some(0u8), 2 => Some(rh.pickc(&[10u8, 19, 7, 11, 14, 255])), _ => None } };
+        let case = XCase { entries, by_writer, seekable, policy: gen_policy_short(&mut r), fault, precreate, target_form, prefiles, host };
         serde_json::to_value(case).unwrap_or(Value::Null)
     }
 
@@ -370,6 +377,14 @@ impl Scenario for Extract {
                     Some(p) => (ty | p) << 16,
                     None => 0,
                 };
+                if let Some(h) = c.host {
+                    be.sys = h;
+                    if h == 0 {
+                        // a DOS attribute word: directory / archive, read-only when the drawn mode has no write bit
+                        let ro = e.kind != 1 && e.perm.map(|p| p & 0o222 == 0).unwrap_or(false);
+                        be.eattr = if e.kind == 1 { 0x10 } else { 0x20 } | ro as u32;
+                    }
+                }
                 if cname != name {
                     be.central_name = Some(Hex(cname.as_bytes().to_vec()));
                     be.utf8 = !name.is_ascii() || !cname.is_ascii();
@@ -391,6 +406,17 @@ impl Scenario for Extract {
                         _ => (0o644, 0o100000),
                     };
                     Some((e.perm.map(|p| p & 0o777).unwrap_or(d)) | t)
+                } else if let Some(h) = c.host {
+                    // documented mapping: DOS attributes -> 0o775 (directory) / 0o664 (file), minus the write bits
+                    // when read-only; hosts the library does not interpret record no mode
+                    if h == 0 {
+                        let ro = e.kind != 1 && e.perm.map(|p| p & 0o222 == 0).unwrap_or(false);
+                        Some(if e.kind == 1 { 0o40775 } else { 0o100664 } & if ro { !0o222 } else { !0 })
+                    } else if h == 3 {
+                        e.perm.map(|p| p | match e.kind { 1 => 0o040000, 2 => 0o120000, _ => 0o100000 })
+                    } else {
+                        None
+                    }
                 } else {
                     e.perm.map(|p| p | match e.kind { 1 => 0o040000, 2 => 0o120000, _ => 0o100000 })
                 }
@@ -651,6 +677,9 @@ impl Scenario for Extract {
         }
         if c.target_form != 0 {
             out.push(XCase { target_form: 0, ..c.clone() });
+        }
+        if c.host.is_some() {
+            out.push(XCase { host: None, ..c.clone() });
         }
         for i in 0..c.entries.len() {
             let e = &c.entries[i];
